@@ -126,7 +126,8 @@ Finish(S0, n, succ, tag) ==
        IN Emit(S4, "final", n)
 
 \* a leaf completes (probe leaf / FunctionAction / SleepAction timer)
-LeafFire(S0, n) ==
+LeafFire(S00, n) ==
+  LET S0 == [S00 EXCEPT !.lrem[n] = 0] IN
   CASE prog[n].o = "succ" -> Finish(S0, n, TRUE, prog[n].tag)
     [] prog[n].o = "fail" -> Finish(S0, n, FALSE, prog[n].tag)
     [] prog[n].o = "block" -> IF S0.lph[n] = 0 THEN [Block(S0, n, 0) EXCEPT !.lph[n] = 1]
@@ -304,9 +305,13 @@ DeliverItem(S0, it) ==
 
 -----------------------------------------------------------------------------
 (* Actions *)
-FireEnabled(S0, n) == IsLeaf(n) /\ S0.st[n] = "Running" /\ S0.lrem[n] = 0 /\ prog[n].o # "never" /\ S0.lph[n] # 1
-TimeoutEnabled(S0, n) == S0.ten[n] /\ S0.trem[n] = 0
-Urgent(S0) == \E n \in Nodes : FireEnabled(S0, n) \/ TimeoutEnabled(S0, n)
+\* A leaf / timeout is *due* when its counter is 0 and *overdue* (-1) when a further tick has passed since: the loop
+\* fires expired timers at the start of an iteration, the clock moves in the middle of one, so a due timer may see
+\* one more tick but not two.
+CanFire(S0, n) == IsLeaf(n) /\ S0.st[n] = "Running" /\ prog[n].o # "never" /\ S0.lph[n] # 1
+FireEnabled(S0, n) == CanFire(S0, n) /\ S0.lrem[n] <= 0
+TimeoutEnabled(S0, n) == S0.ten[n] /\ S0.trem[n] <= 0
+Urgent(S0) == \E n \in Nodes : (CanFire(S0, n) /\ S0.lrem[n] < 0) \/ (S0.ten[n] /\ S0.trem[n] < 0)
 
 RetS(S0, op) == CASE op = "start" -> S0.st[1] \in {"Idle", "Running"}
                  [] op \in {"pause", "resume"} -> S0.st[1] \in {"Running", "Pause"}
@@ -331,8 +336,9 @@ CtlStop == Ctl("stop")
 CtlReset == Ctl("reset")
 
 \* the clock advances by one unit: running leaves and enabled timeouts count down
-TickS(S0) == [S0 EXCEPT !.lrem = [n \in Nodes |-> IF IsLeaf(n) /\ S0.st[n] = "Running" /\ @[n] > 0 THEN @[n] - 1 ELSE @[n]],
-                        !.trem = [n \in Nodes |-> IF S0.ten[n] /\ @[n] > 0 THEN @[n] - 1 ELSE @[n]],
+TickS(S0) == [S0 EXCEPT !.lrem = [n \in Nodes |-> IF CanFire(S0, n) /\ @[n] >= 0 THEN @[n] - 1
+                                                 ELSE IF IsLeaf(n) /\ S0.st[n] = "Running" /\ @[n] > 0 THEN @[n] - 1 ELSE @[n]],
+                        !.trem = [n \in Nodes |-> IF S0.ten[n] /\ @[n] >= 0 THEN @[n] - 1 ELSE @[n]],
                         !.q = IF TrackAge THEN [i \in DOMAIN @ |-> [@[i] EXCEPT !.age = @ + 1]] ELSE @]
 Tick == /\ ~Urgent(S)
         /\ S' = TickS(S)
